@@ -88,7 +88,8 @@ def main(argv):
             tasks.append(('verus', u, u['verus'], None))
         if 'kani' in u:
             hs = [h for h in u['kani']['harnesses'] if pid in h.get('properties', [])
-                  and (tier == 'thorough' or h.get('tier', 'quick') == 'quick')]
+                  and (h.get('tier', 'quick') == 'quick' or (tier == 'thorough' and h.get('tier') == 'thorough')
+                       or os.environ.get('DV_EXPERIMENTAL') == '1')]
             if hs:
                 tasks.append(('kani', u, u['kani'], hs))
     nk = max(1, sum(1 for t in tasks if t[0] == 'kani'))
